@@ -331,7 +331,7 @@ def run_regress(modname: str, out_path: str) -> int:
 # parent
 
 def write_replay(prop: str, v: dict) -> Path:
-    d = REPLAY_DIR / prop
+    d = (Path(os.environ["VT_REPLAY_DIR"]) if os.environ.get("VT_REPLAY_DIR") else REPLAY_DIR) / prop
     d.mkdir(parents=True, exist_ok=True)
     h = hashlib.sha1(v["sig"].encode()).hexdigest()[:10]
     p = d / f"{h}.json"
@@ -477,8 +477,9 @@ def parent(modname: str, tier: str, seed: int, only: str | None, nshards_opt: in
         print(f"HARNESS-ERROR: evidence does not validate: {exc}", file=sys.stderr)
         EVIDENCE_DIR.mkdir(exist_ok=True)
         return 2
-    EVIDENCE_DIR.mkdir(exist_ok=True)
-    (EVIDENCE_DIR / f"{prop}.json").write_text(json.dumps(ev, indent=1, sort_keys=True))
+    if not os.environ.get("VT_NO_EVIDENCE"):
+        EVIDENCE_DIR.mkdir(exist_ok=True)
+        (EVIDENCE_DIR / f"{prop}.json").write_text(json.dumps(ev, indent=1, sort_keys=True))
     for l in lines:
         print(l)
     if violations:
